@@ -199,6 +199,7 @@ Definition run_deb822 (op : string) (a : list str) : option str :=
   else if op =? "pbase" then Some (hx (PATH.base (g 0)))
   else if op =? "pdir" then Some (hx (PATH.dir (g 0)))
   else if op =? "pext" then Some (hx (PATH.ext (g 0)))
+  else if op =? "pistar" then Some (show_bool (PATH.is_tarfile (g 0)))
   else if op =? "pset" then Some (show_para (para_of_args a R2.empty_para))
   else if op =? "pupdate" then
     (let n := arg_nat (g 0) in
